@@ -1,4 +1,5 @@
 """C07 - norm, dot, sum and bilinear_form equal their dense values."""
+import numpy as np
 import torch
 from hypothesis import strategies as st
 
@@ -162,14 +163,18 @@ def execute(case):
         if case.get("negative"):
             ck.label("negative_axis")
             neg = [i - d if f else i for i, f in zip(idx, case["negative"])]
+            if xs["seed"] % 3 == 1:          # numpy integers / a tuple instead of a list: same accept-or-correct oracle
+                neg = [np.int64(i) for i in idx]
+                ck.label("numpy_axis")
+            elif xs["seed"] % 3 == 2 and case["form"] != "int":
+                neg = tuple(idx)
+                ck.label("tuple_axis")
             arg = neg[0] if case["form"] == "int" else neg
             try:
                 got = lib(lambda: x.sum(arg))
-            except core.LibraryException as e:
-                if isinstance(e.orig, T.errors.InvalidArguments):
-                    ck.label("negative_axis_rejected")
-                    return ck.verdict()
-                raise
+            except core.LibraryException:
+                ck.label("negative_axis_rejected")
+                return ck.verdict()
         else:
             got = lib(lambda: x.sum(arg))
         dims = list(idx) + ([i + d for i in idx] if ttm else [])
@@ -200,13 +205,17 @@ def execute(case):
         if case.get("negative"):
             ck.label("negative_axis")
             neg = [i - d if f else i for i, f in zip(ax, case["negative"])]
+            if xs["seed"] % 3 == 1:
+                neg = [np.int64(i) for i in ax]
+                ck.label("numpy_axis")
+            elif xs["seed"] % 3 == 2:
+                neg = tuple(ax)
+                ck.label("tuple_axis")
             try:
                 got = lib(lambda: T.dot(x, y, neg))
-            except core.LibraryException as e:
-                if isinstance(e.orig, (T.errors.InvalidArguments, T.errors.ShapeMismatch)):
-                    ck.label("negative_axis_rejected")
-                    return ck.verdict()
-                raise
+            except core.LibraryException:
+                ck.label("negative_axis_rejected")
+                return ck.verdict()
         else:
             got = lib(lambda: T.dot(x, y, list(ax)))
         yd, ya = dense(yc), dense_abs(yc)
